@@ -1,5 +1,7 @@
 import TenpyModel.C01.B2_Dot10
 import TenpyModel.C01.B2_Prog
+import TenpyModel.C01.B2_Trace5
+import TenpyModel.C01.B2_InnerEx
 import TenpyModel.C01.PropsB
 /-!
 C01 part B2 — the theorems left open by part B (`PropsB.lean`): `tensordot` through `_tensordot_worker` and the
@@ -146,10 +148,25 @@ example : ∃ r, Arr.tensordot false C01ExampleB2.m2 C01ExampleB.m (.pair [.idx 
   refine ⟨r, hr, hd, ?_, hwf⟩
   rw [hd]; decide
 
+/-! ## outer: well-formedness of the result (used by the `k = 0` branch of `tensordot` and by the programs) -/
+
+/-- `outer(a, b)` returns a well-formed tensor: block rows `qa ++ qb` duplicate-free and in range, blocks of the right
+shape, and the inherited claim `_qdata_sorted = a._qdata_sorted and b._qdata_sorted` is truthful (rows are generated
+with the block index of `a` running fastest, which is the lexsort order when both operands are lexsorted).
+Complements `C01_toDense_outer` (dense form, legs, labels, total charge). -/
+theorem C01_WF_outer {α : Type} [CommSemiring α] (a b r : Arr α) (ha : a.WF) (hb : b.WF) (h : a.outer b = .ok r) :
+    r.WF ∧ r.qdataSorted = (a.qdataSorted && b.qdataSorted) :=
+  ⟨outer_WF a b r (W.of ha) (W.of hb) h, (outer_parts a b r h).2.2.2.2⟩
+
+example : (C01Example.t.outer C01ExampleB.v).toOption.map (fun r => (decide r.WF, r.qdataSorted)) = some (true, false)
+    ∧ (C01Example.t.outer C01ExampleB2.x1).toOption.map (fun r => (decide r.WF, r.qdataSorted, r.qdata))
+        = some (true, true, [[2, 0, 0, 0]]) := by decide
+
 /-! ## finite programs over part A's operations and the products -/
 
 /-- **All finite compositions, with products.** `C01ProgAB`: expression trees whose nodes are `outer`, `tensordot`
-with an integer `k` or with a pair of axis lists (by index or label; tensor-valued, i.e. not a full contraction), and
+with an integer `k` or with a pair of axis lists (by index or label; tensor-valued, i.e. not a full contraction),
+`trace` (tensor-valued, i.e. rank ≠ 2), and
 arbitrary part-A programs (`C01ProgA`: negation, scaling, `conj`, transposition, slicing, projection, `permute`,
 `ibinary_blockwise`, `iadd_prefactor_other`, …) applied to two computed operands. If the block-sparse evaluation
 succeeds on well-formed operands and the side conditions hold (`C01ProgAB.Side`: those of `C01_programA` at the
@@ -198,3 +215,97 @@ example : ∃ r, C01ExampleB2.pAB.evalArr id false [C01ExampleB2.m2, C01ExampleB
   refine ⟨r, he, ?_, ?_, h3⟩
   · rw [h1]; decide
   · rw [h2]; decide
+
+/-- a `trace` node on top of a part-A program, fully evaluated: `trace(-s3, 'a', 'a*')` -/
+example : ((C01ProgAB.trace (.lbl "a") (.lbl "a*") (.partA (.neg (.input 0)) (.input 0) (.input 0))).evalArr id false
+      [C01ExampleB2T.s3]).toOption.map (fun r => (r.toDense, r.labels))
+    = some (((C01ProgAB.trace (.lbl "a") (.lbl "a*") (.partA (.neg (.input 0)) (.input 0) (.input 0))).evalRef id
+      [C01ExampleB2T.s3.toLD]).d, [some "b*"]) := by decide
+
+/-! ## trace (rank > 2, general axis positions) -/
+
+/-- **`trace(a, leg1, leg2)`** for every rank other than 2 (the rank-2 call returns a scalar:
+`C01_toDense_trace_partial`), legs by index or label, in general position and either order: the dictionary loop keeps
+one entry per remaining block index and accumulates the partial traces of the stored blocks that are diagonal in the
+two traced legs (off-diagonal blocks of duplicate sectors are skipped). The result is
+`np.trace(to_ndarray(a), axis1, axis2)`, entry-wise `r[idx] = Σ_t a[idx with t at both traced axes]`; remaining legs
+and labels in order, total charge kept, well formed (`_qdata_sorted` is only claimed for the empty result). -/
+theorem C01_toDense_trace {α : Type} [CommSemiring α] (a : Arr α) (ha : a.WF) (l1 l2 : Ax) (v : Val α)
+    (h : a.trace l1 l2 = .ok v) (hr : a.rank ≠ 2) :
+    ∃ ax1 ax2 r, a.getLegIndex l1 = .ok ax1 ∧ a.getLegIndex l2 = .ok ax2
+      ∧ ax1 ≠ ax2 ∧ ax1 < a.rank ∧ ax2 < a.rank ∧ 2 < a.rank
+      ∧ v = .arr r
+      ∧ r.toDense = Dense.trace a.toDense ax1 ax2
+      ∧ (∀ idx, InRange idx r.shape → r.entry idx = ((List.range (a.shape.getD ax1 0)).map (fun t =>
+            a.entry ((List.range a.rank).map (fun k => if k = ax1 ∨ k = ax2 then t
+              else idx.getD (((List.range a.rank).filter (fun k => k ≠ ax1 ∧ k ≠ ax2)).idxOf k) 0)))).sum)
+      ∧ a.shape.getD ax1 0 = a.shape.getD ax2 0
+      ∧ r.shape = ((List.range a.rank).filter (fun k => k ≠ ax1 ∧ k ≠ ax2)).map (fun k => a.shape.getD k 0)
+      ∧ r.legs = pick a.legs ((List.range a.rank).filter (fun k => k ≠ ax1 ∧ k ≠ ax2)) default
+      ∧ r.labels = pick a.labels ((List.range a.rank).filter (fun k => k ≠ ax1 ∧ k ≠ ax2)) none
+      ∧ r.qtotal = makeValid a.mods a.qtotal ∧ r.mods = a.mods
+      ∧ (r.qdataSorted = true → r.qdata = [])
+      ∧ r.WF :=
+  trace_arr a ha l1 l2 v h hr
+
+/-- non-vacuity (`C01ExampleB2T.s3`: legs `legA, legB, legA.conj`; three diagonal blocks accumulate into the new row
+`[0]`, the off-diagonal block of the duplicate sector is skipped; `s3off`: only off-diagonal blocks) -/
+example : C01ExampleB2T.s3.WF ∧ C01ExampleB2T.s3off.WF ∧ C01ExampleB2T.s3.rank ≠ 2 := by decide
+example : C01ExampleB2T.trOut C01ExampleB2T.s3 (.lbl "a") (.lbl "a*")
+    = some (Dense.trace C01ExampleB2T.s3.toDense 0 2, [[0]], [⟨[2], [20, 35]⟩]) := by decide
+example : C01ExampleB2T.trOut C01ExampleB2T.s3 (.idx (-1)) (.idx 0)
+    = some (Dense.trace C01ExampleB2T.s3.toDense 2 0, [[0]], [⟨[2], [20, 35]⟩]) := by decide
+example : Dense.trace C01ExampleB2T.s3.toDense 0 2 = ⟨[3], [20, 35, 0]⟩ := by decide
+example : C01ExampleB2T.trOut C01ExampleB2T.s3off (.lbl "a") (.lbl "a*")
+    = some (Dense.trace C01ExampleB2T.s3off.toDense 0 1, [], []) := by decide
+
+/-! ## inner with conjugation and with general axes -/
+
+/-- **`inner(a, b, axes='range', do_conj)`** for both values of `do_conj`, without side hypothesis: for `do_conj=True`
+the legs are `test_equal` and the pre-check of `_inner_worker` is `make_valid(qb − qa) ≠ 0 → 0`; by the charge rule it
+can only fire when no block index is stored in both operands (the `test_equal` analogue of `hch_of_chargeRule`). -/
+theorem C01_toDense_inner_conj {α : Type} [CommSemiring α] (st : α → α) (hst : st 0 = 0) (a b : Arr α)
+    (ha : a.WF) (hb : b.WF) (hca : a.ChargeRule) (hcb : b.ChargeRule) (hvb : LegsValid b) (doConj : Bool) (x : α)
+    (h : Arr.inner st a b .range doConj = .ok x) :
+    x = Dense.inner (if doConj then a.toDense.map st else a.toDense) b.toDense :=
+  inner_range st hst a b ha hb hca hcb hvb doConj x h
+
+/-- **`inner(a, b, axes, do_conj)`** for every form of `axes` (`'range'`, `'labels'`, a pair of axis lists by index or
+label): the operand `a` is transposed by the permutation `p` the code computes (`InnerPermOK`: `p = range` for
+`'range'`, else `p = ia[argsort(ib)]` for the leg indices `ia`, `ib` of the two axis lists — a permutation as a
+consequence of the argument checks), and the value is `Σ_i st?(np.transpose(A, p)[i]) · B[i]`. Composition of the
+`'range'` case with part A's transpose theorem (transposition keeps well-formedness, charge rule, leg validity). -/
+theorem C01_toDense_inner_axes {α : Type} [CommSemiring α] (st : α → α) (hst : st 0 = 0) (a b : Arr α)
+    (ha : a.WF) (hb : b.WF) (hca : a.ChargeRule) (hcb : b.ChargeRule) (hvb : LegsValid b) (axes : Arr.InnerAxes)
+    (doConj : Bool) (x : α) (h : Arr.inner st a b axes doConj = .ok x) :
+    ∃ p : List Nat, p.Perm (List.range a.rank) ∧ InnerPermOK a b axes doConj p
+      ∧ x = Dense.inner (if doConj then (a.toDense.transpose p).map st else a.toDense.transpose p) b.toDense :=
+  inner_axes st hst a b ha hb hca hcb hvb axes doConj x h
+
+/-- non-vacuity: `do_conj=True` with `st` = negation (`tb`: same legs as `t`, unsorted block list) -/
+example : ∃ x, Arr.inner (fun z => -z) C01Example.t C01ExampleB2I.tb .range true = .ok x ∧ x = 11 := by
+  obtain ⟨x, h⟩ : ∃ x, Arr.inner (fun z => -z) C01Example.t C01ExampleB2I.tb .range true = .ok x := ⟨_, rfl⟩
+  refine ⟨x, h, ?_⟩
+  rw [C01_toDense_inner_conj (fun z => -z) (by simp) C01Example.t C01ExampleB2I.tb (by decide) (by decide) (by decide)
+    (by decide) (by decide) true x h]
+  decide
+/-- the pre-check fires (different total charges) and 0 is the dense value -/
+example : Arr.inner id C01Example.t C01ExampleB2I.tb2 .range true = .ok 0
+    ∧ Dense.inner (C01Example.t.toDense.map id) C01ExampleB2I.tb2.toDense = 0 := ⟨rfl, by decide⟩
+/-- general axes by label (`ut` = `u` with its legs exchanged): the permutation is `[1, 0]` -/
+example : ∃ x, Arr.inner id C01Example.t C01ExampleB2I.ut (.pair [.lbl "b*", .lbl "a"] [.lbl "b", .lbl "a*"]) false
+    = .ok x ∧ x = -11 := by
+  obtain ⟨x, h⟩ : ∃ x, Arr.inner id C01Example.t C01ExampleB2I.ut
+      (.pair [.lbl "b*", .lbl "a"] [.lbl "b", .lbl "a*"]) false = .ok x := ⟨_, rfl⟩
+  refine ⟨x, h, ?_⟩
+  obtain ⟨p, _, hp, hx⟩ := C01_toDense_inner_axes id rfl C01Example.t C01ExampleB2I.ut (by decide) (by decide)
+    (by decide) (by decide) (by decide) _ false x h
+  obtain ⟨ia, ib, h1, h2, rfl⟩ := hp
+  have e1 : C01Example.t.getLegIndices [.lbl "b*", .lbl "a"] = .ok [1, 0] := rfl
+  have e2 : C01ExampleB2I.ut.getLegIndices [.lbl "b", .lbl "a*"] = .ok [0, 1] := rfl
+  rw [e1] at h1
+  rw [e2] at h2
+  cases h1
+  cases h2
+  rw [hx]
+  decide
